@@ -90,6 +90,10 @@ def r_arith(F, V):
                 n += 1
                 R.violation("%s|%s" % (fn, name), body, "`%s` on a size/capacity value in %s silently wraps/saturates instead of reporting overflow" % (name, fn), line=line_of(body, bb=i))
                 R.inst("%s|%s" % (fn, name), "non-checked numeric method", "violation", True, where(body, bb=i))
+            elif name in ("checked_shl", "checked_shr"):
+                n += 1
+                R.violation("%s|%s" % (fn, name), body, "`%s` only rejects shift amounts >= the bit width; it does NOT report that bits are shifted out: the overflow of a size/capacity value goes unnoticed" % name, line=line_of(body, bb=i))
+                R.inst("%s|%s" % (fn, name), "checked shift used as an overflow check", "violation", True, where(body, bb=i))
             elif name.startswith("checked_"):
                 n += 1
                 # the None must be handled by a branch (`?`, match, ok_or_else): the result feeds a switch
@@ -124,6 +128,9 @@ def r_arith(F, V):
                         roots = [body.root_of_place(o["p"])[0] for o in (rv["a"], rv["b"]) if o["k"] in ("copy", "move")]
                         if size_root in roots:
                             ok = True
+                            if not S.has_load("ctrl_align"):
+                                ok = False
+                                why = "the bound the length is compared against does not account for the alignment padding (isize::MAX - (ctrl_align - 1))"
                         else:
                             why = "the value compared against the isize::MAX bound is not the length passed to Layout::from_size_align_unchecked"
                 if ok:
